@@ -29,7 +29,7 @@ def cases(draw, est=None, max_n=20000):
     fam = draw(st.sampled_from(["normal", "skewnorm", "gamma", "lognormal", "t", "logistic"]))
     return {"seed": draw(st.integers(0, 2**31)), "family": fam, "estimator": est or draw(st.sampled_from(["kde", "unimodal"])),
             "n": draw(st.sampled_from([300, 1000, 3000, max_n])) if est != "unimodal" else draw(st.sampled_from([300, 1000, 3000, 4000, 9000, 5000])),
-            "shape": draw(st.floats(0, 1)),
+            "shape": draw(st.floats(0, 1)), "mirror": draw(st.booleans()),   # mirror: the long tail on the left
             "loc_sd": draw(st.sampled_from([0.0, 0.0, 3.0, 1e2, -1e2, 1e4, -1e4, 1e6])),
             "log_scale": draw(st.sampled_from([0.0, 0.0, -6.0, 6.0, draw(st.floats(-6, 6))])),
             "fraction": draw(st.one_of(st.sampled_from([0.68268, 0.95449, 0.5]), st.floats(0.05, 0.95)))}
@@ -53,6 +53,8 @@ def make_sample(case):
     else:
         z = g.logistic(size=n)
     z = (z - z.mean()) / z.std()
+    if case.get("mirror"):
+        z = -z
     scale = 10.0 ** case["log_scale"]
     return (z + case["loc_sd"]) * scale, scale
 
@@ -221,6 +223,7 @@ def body_core(case, ctx):
     ctx.event(f"est={kind}")
     ctx.event("family=" + case["family"])
     ctx.event(lc)
+    ctx.event("tail=" + ("left" if case.get("mirror") else "right") if case["family"] in ("skewnorm", "gamma", "lognormal") else "symmetric-family")
 
 
 def reference_moments(est, sample, sd, centre, rng_lo, rng_hi):
@@ -279,6 +282,7 @@ def body_moments(case, ctx):
     ctx.nontrivial(nontrivial(case))
     ctx.event(f"est={kind}")
     ctx.event(lc)
+    ctx.event("tail=" + ("left" if case.get("mirror") else "right") if case["family"] in ("skewnorm", "gamma", "lognormal") else "symmetric-family")
 
 
 def body_covariance(case, ctx):
@@ -318,6 +322,7 @@ def body_covariance(case, ctx):
     ctx.nontrivial(nontrivial(case))
     ctx.event(f"est={kind}")
     ctx.event(lc)
+    ctx.event("tail=" + ("left" if case.get("mirror") else "right") if case["family"] in ("skewnorm", "gamma", "lognormal") else "symmetric-family")
 
 
 SUBCHECKS = [
